@@ -5,6 +5,7 @@ The model is shared with C01 (`Sc3Verif/C01/Model.lean` = graph compiler,
 -/
 import Sc3Verif.C01.ScgfLemmas
 import Sc3Verif.C01.TopoLemmas
+import Sc3Verif.C01.TopoComplete
 namespace Sc3Verif.C02
 open Sc3Verif.C01
 
@@ -57,6 +58,24 @@ theorem topo_each_once (order : Nat → List Nat) (ante0 : Nat → List Nat) (fu
     · exact h0 d h1
     · simp at h1
   · intro i hi; simp at hi
+
+/-- No unit is lost: when the antecedent relation is acyclic (some rank decreases along it),
+    closed over the units `kids`, the descendant enumeration `order` is its exact converse and
+    the loop starts from the units without antecedents, then with `|kids| + 1` steps of fuel the
+    loop succeeds (no KeyError) and emits exactly the units of `kids`, each once. -/
+theorem topo_complete (order ante0 : Nat → List Nat) (kids : List Nat) (rank : Nat → Nat)
+    (hclosed : ∀ d ∈ kids, ∀ a ∈ ante0 d, a ∈ kids)
+    (hcons : ∀ o d, d ∈ order o ↔ (d ∈ kids ∧ o ∈ ante0 d))
+    (hord_nodup : ∀ o, (order o).Nodup)
+    (hacyc : ∀ d ∈ kids, ∀ a ∈ ante0 d, rank a < rank d)
+    (avail0 : List Nat) (hav : ∀ d, d ∈ avail0 ↔ (d ∈ kids ∧ ante0 d = [])) (havnd : avail0.Nodup) :
+    ∃ res, topoLoop order (kids.length + 1) ante0 avail0 [] = .ok res ∧ res.Nodup ∧
+      ∀ d, d ∈ res ↔ d ∈ kids := by
+  apply topoLoop_complete order ante0 kids rank hclosed hcons hord_nodup hacyc
+  · refine ⟨fun d _ => by simp, fun d => ?_, by simpa using havnd⟩
+    simp only [List.not_mem_nil, or_false]
+    exact hav d
+  · simp
 
 /-! non-vacuity: a concrete valid definition and a concrete scheduling run -/
 def exW : WDef :=
